@@ -60,11 +60,17 @@ type CompileError struct {
 	Func string // enclosing function of the output file, when known
 }
 
+// BuildTimeout is what Build reports as raw output when the compiler was killed by the time limit.
+const BuildTimeout = "timeout: go build did not finish"
+
 // Build compiles the home package of the scratch module under the ordinary build.
 func Build(dir string) (bool, []CompileError, string) {
 	r := hx.GoTool(dir, 180*time.Second, "build", "-gcflags=-e", "./home/")
 	if r.Exit == 0 {
 		return true, nil, ""
+	}
+	if r.TimedOut || r.Signaled {
+		return false, nil, BuildTimeout // the compiler did not finish (busy machine): no verdict
 	}
 	var errs []CompileError
 	for _, ln := range strings.Split(r.Stderr+"\n"+r.Stdout, "\n") {
